@@ -32,7 +32,7 @@ def run(prog, rep, tier='quick', config='default'):
         if cand.name.startswith(MOD) and cand.kind in ('Fn', 'AssocFn') and 'testlib' not in cand.name:
             sig = prog.sigs('acb').get(cand.local_name)
             body = [g for g in prog.closures_of(cand)] + [cand]
-            if any(x.short == 'contains_key' and re.search(r'HashMap<u32, std::collections::HashMap<time::Date', g.ty.get(x.arg_local(0), '')) for g in body for x in g.calls):
+            if any(x.short in ('contains_key', 'get') and re.search(r'HashMap<u32, std::collections::HashMap<time::Date', g.ty.get(x.arg_local(0), '')) for g in body for x in g.calls):
                 exact = cand
     exact = exact or prog.fn(MOD + 'RateLoader::get_exact_usd_cad_rate')
     if not rep.anchor('RateLoader::get_effective_usd_cad_rate', eff) or not rep.anchor('RateLoader::get_exact_usd_cad_rate', exact):
